@@ -138,6 +138,8 @@ static uint32_t pix_of(int mode, int x, int y, uint64_t *st, const uint32_t *pal
   case 1: return pal[(x * 7 + y * 13 + (x * y)) % 5 == 0 ? 1 : 0];
   case 2: { uint64_t z = (*st += 0x9E3779B97F4A7C15ull); z ^= z >> 29; return pal[z % (uint64_t)npal]; }
   case 3: { uint64_t z = (*st += 0x9E3779B97F4A7C15ull); z = (z ^ (z >> 30)) * 0xBF58476D1CE4E5B9ull; return (uint32_t)(z >> 20); }
+  case 6: return pal[(x + 2 * y) & 3];
+  case 7: return pal[((x >> 1) + y) & 1];
   case 4: return (uint32_t)(((x * 3) & 255) | (((y * 5) & 255) << 8) | ((((x + y) * 2) & 255) << 16));
   default: return pal[((x / 5) + (y / 3)) % npal];
   }
